@@ -13,75 +13,75 @@ namespace LunaVerif.Ulpi
 theorem coh_step_startWrite (cfg : Config) (x : World) (i : UtmiIn) (h : Coh x)
     (hw : x.u.win.st = .startWrite)
     (hs : safeCycle x.p.bus x.e i (x.u.step cfg i).2 = true) : Coh (x.step cfg i) := by
-  obtain ⟨⟨win, ctl, tx, rx, rdy, cnt⟩, ⟨pb, r4, rA, po, pw⟩, ⟨pd, wt, tl, mh, dn⟩⟩ := x
+  obtain ⟨⟨win, ctl, tx, rx, rdy, cnt⟩, ⟨pb, r4, rA, po, pw⟩, ⟨pd, wt, tl, mh, dn, a4, aA⟩⟩ := x
   obtain ⟨wst, ca, cw, d, oq, sp, wdn, rd⟩ := win
   obtain ⟨tst, treq⟩ := tx
   obtain ⟨c4, cA, cb⟩ := ctl
   obtain ⟨⟨dir, nxt, din⟩, txd, txv, ctrl⟩ := i
   simp only at hw
   subst hw
-  simp only [Coh, BusyCommon] at h
+  simp only [Coh, BusyCommon, Latched] at h
   obtain ⟨h1, h2, ⟨hb, ht, ha, hd, hr4, hrA⟩, hpb, hsp, hpd⟩ := h
   subst h1 hb hd hr4 hrA hpb hsp
   cases ht
   simp only [safeCycle, Utmi.step, PhyBus.isIdle, PhyBus.isTx] at hs
-  cases dir <;> cases nxt <;> simp_all [Coh, BusyCommon, World.step, Utmi.step, Window.step, Ctl.step, Ctl.comb, Tx.step,
+  cases dir <;> cases nxt <;> simp_all [Coh, BusyCommon, Latched, World.step, Utmi.step, Window.step, Ctl.step, Ctl.comb, Tx.step,
     PhyRegs.step, Env.step, Utmi.ctlOut, Utmi.ctlBusIdle, Utmi.txBusIdle, Tx.busy, Window.busy, COMMAND_REG_WRITE]
 
 theorem coh_step_sendWriteAddress (cfg : Config) (x : World) (i : UtmiIn) (h : Coh x)
     (hw : x.u.win.st = .sendWriteAddress)
     (hs : safeCycle x.p.bus x.e i (x.u.step cfg i).2 = true) : Coh (x.step cfg i) := by
-  obtain ⟨⟨win, ctl, tx, rx, rdy, cnt⟩, ⟨pb, r4, rA, po, pw⟩, ⟨pd, wt, tl, mh, dn⟩⟩ := x
+  obtain ⟨⟨win, ctl, tx, rx, rdy, cnt⟩, ⟨pb, r4, rA, po, pw⟩, ⟨pd, wt, tl, mh, dn, a4, aA⟩⟩ := x
   obtain ⟨wst, ca, cw, d, oq, sp, wdn, rd⟩ := win
   obtain ⟨tst, treq⟩ := tx
   obtain ⟨c4, cA, cb⟩ := ctl
   obtain ⟨⟨dir, nxt, din⟩, txd, txv, ctrl⟩ := i
   simp only at hw
   subst hw
-  simp only [Coh, BusyCommon] at h
+  simp only [Coh, BusyCommon, Latched] at h
   obtain ⟨h1, h2, ⟨hb, ht, ha, hd, hr4, hrA⟩, hpb, hsp, hdo, hpd⟩ := h
   subst h1 hb hd hr4 hrA hpb hsp hdo hpd
   cases ht
   simp only [safeCycle, Utmi.step, PhyBus.isIdle, PhyBus.isTx] at hs
-  rcases ha with ha | ha <;> subst ha <;>
-  cases dir <;> cases nxt <;> simp_all [Coh, BusyCommon, World.step, Utmi.step, Window.step, Ctl.step, Ctl.comb, Tx.step,
+  rcases ha with ⟨ha, hv⟩ | ⟨ha, hv⟩ <;> subst ha hv <;>
+  cases dir <;> cases nxt <;> simp_all [Coh, BusyCommon, Latched, World.step, Utmi.step, Window.step, Ctl.step, Ctl.comb, Tx.step,
     PhyRegs.step, Env.step, Utmi.ctlOut, Utmi.ctlBusIdle, Utmi.txBusIdle, Tx.busy, Window.busy]
 
 theorem coh_step_holdWrite (cfg : Config) (x : World) (i : UtmiIn) (h : Coh x)
     (hw : x.u.win.st = .holdWrite)
     (hs : safeCycle x.p.bus x.e i (x.u.step cfg i).2 = true) : Coh (x.step cfg i) := by
-  obtain ⟨⟨win, ctl, tx, rx, rdy, cnt⟩, ⟨pb, r4, rA, po, pw⟩, ⟨pd, wt, tl, mh, dn⟩⟩ := x
+  obtain ⟨⟨win, ctl, tx, rx, rdy, cnt⟩, ⟨pb, r4, rA, po, pw⟩, ⟨pd, wt, tl, mh, dn, a4, aA⟩⟩ := x
   obtain ⟨wst, ca, cw, d, oq, sp, wdn, rd⟩ := win
   obtain ⟨tst, treq⟩ := tx
   obtain ⟨c4, cA, cb⟩ := ctl
   obtain ⟨⟨dir, nxt, din⟩, txd, txv, ctrl⟩ := i
   simp only at hw
   subst hw
-  simp only [Coh, BusyCommon] at h
+  simp only [Coh, BusyCommon, Latched] at h
   obtain ⟨h1, h2, ⟨hb, ht, ha, hd, hr4, hrA⟩, hpb, hsp, hdo, hpd⟩ := h
   subst h1 hb hd hr4 hrA hpb hsp hdo hpd
   cases ht
   simp only [safeCycle, Utmi.step, PhyBus.isIdle, PhyBus.isTx] at hs
-  cases dir <;> cases nxt <;> simp_all [Coh, BusyCommon, World.step, Utmi.step, Window.step, Ctl.step, Ctl.comb, Tx.step,
+  cases dir <;> cases nxt <;> simp_all [Coh, BusyCommon, Latched, World.step, Utmi.step, Window.step, Ctl.step, Ctl.comb, Tx.step,
     PhyRegs.step, Env.step, Utmi.ctlOut, Utmi.ctlBusIdle, Utmi.txBusIdle, Tx.busy, Window.busy]
 
 theorem coh_step_stopping (cfg : Config) (x : World) (i : UtmiIn) (h : Coh x)
     (hw : x.u.win.st = .stopping)
     (hs : safeCycle x.p.bus x.e i (x.u.step cfg i).2 = true) : Coh (x.step cfg i) := by
-  obtain ⟨⟨win, ctl, tx, rx, rdy, cnt⟩, ⟨pb, r4, rA, po, pw⟩, ⟨pd, wt, tl, mh, dn⟩⟩ := x
+  obtain ⟨⟨win, ctl, tx, rx, rdy, cnt⟩, ⟨pb, r4, rA, po, pw⟩, ⟨pd, wt, tl, mh, dn, a4, aA⟩⟩ := x
   obtain ⟨wst, ca, cw, d, oq, sp, wdn, rd⟩ := win
   obtain ⟨tst, treq⟩ := tx
   obtain ⟨c4, cA, cb⟩ := ctl
   obtain ⟨⟨dir, nxt, din⟩, txd, txv, ctrl⟩ := i
   simp only at hw
   subst hw
-  simp only [Coh, BusyCommon] at h
+  simp only [Coh, BusyCommon, Latched] at h
   obtain ⟨h1, h2, ⟨hb, ht, ha, hd, hr4, hrA⟩, hpb, hsp, hdo⟩ := h
   subst h1 hb hd hr4 hrA hpb hsp hdo
   cases ht
   simp only [safeCycle, Utmi.step, PhyBus.isIdle, PhyBus.isTx] at hs
-  rcases ha with ha | ha <;> subst ha <;>
-  cases dir <;> cases nxt <;> simp_all [Coh, BusyCommon, World.step, Utmi.step, Window.step, Ctl.step, Ctl.comb, Tx.step,
+  rcases ha with ⟨ha, hv⟩ | ⟨ha, hv⟩ <;> subst ha hv <;>
+  cases dir <;> cases nxt <;> simp_all [Coh, BusyCommon, Latched, World.step, Utmi.step, Window.step, Ctl.step, Ctl.comb, Tx.step,
     PhyRegs.step, PhyRegs.commit, Env.step, Utmi.ctlOut, Utmi.ctlBusIdle, Utmi.txBusIdle, Tx.busy, Window.busy,
     ADDR_FUNCTION_CONTROL, ADDR_OTG_CONTROL]
 
@@ -95,14 +95,14 @@ theorem or64_ne (n : Nat) (h : n < 16) : (64 ||| n) ≠ 0 := by
 theorem coh_step_idle (cfg : Config) (x : World) (i : UtmiIn) (h : Coh x)
     (hw : x.u.win.st = .idle)
     (hs : safeCycle x.p.bus x.e i (x.u.step cfg i).2 = true) : Coh (x.step cfg i) := by
-  obtain ⟨⟨win, ctl, tx, rx, rdy, cnt⟩, ⟨pb, r4, rA, po, pw⟩, ⟨pd, wt, tl, mh, dn⟩⟩ := x
+  obtain ⟨⟨win, ctl, tx, rx, rdy, cnt⟩, ⟨pb, r4, rA, po, pw⟩, ⟨pd, wt, tl, mh, dn, a4, aA⟩⟩ := x
   obtain ⟨wst, ca, cw, d, oq, sp, wdn, rd⟩ := win
   obtain ⟨tst, treq⟩ := tx
   obtain ⟨c4, cA, cb⟩ := ctl
   obtain ⟨⟨dir, nxt, din⟩, txd, txv, ctrl⟩ := i
   simp only at hw
   subst hw
-  simp only [Coh, BusyCommon] at h
+  simp only [Coh, BusyCommon, Latched] at h
   obtain ⟨h1, h2, hdo, hsp, h3⟩ := h
   subst h1 hdo hsp
   have hn := or64_div (txd % 16) (Nat.mod_lt _ (by decide))
@@ -111,9 +111,9 @@ theorem coh_step_idle (cfg : Config) (x : World) (i : UtmiIn) (h : Coh x)
   rcases h3 with ⟨hd, hb, ht, hpb, ha, hr4, hrA⟩ | ⟨hd, hb, hr4, hrA, h4⟩
   · subst hd hb hpb hr4 hrA
     cases ht
-    rcases ha with ha | ha <;> subst ha <;>
+    rcases ha with ⟨ha, hv⟩ | ⟨ha, hv⟩ <;> subst ha hv <;>
     by_cases g4 : c4 = functionControl ctrl <;> by_cases gA : cA = otgControl ctrl <;>
-    cases dir <;> cases nxt <;> simp_all [Coh, BusyCommon, World.step, Utmi.step, Window.step, Ctl.step, Ctl.comb, Tx.step,
+    cases dir <;> cases nxt <;> simp_all [Coh, BusyCommon, Latched, World.step, Utmi.step, Window.step, Ctl.step, Ctl.comb, Tx.step,
       PhyRegs.step, PhyRegs.commit, Env.step, Utmi.ctlOut, Utmi.ctlBusIdle, Utmi.txBusIdle, Tx.busy, Window.busy,
       ADDR_FUNCTION_CONTROL, ADDR_OTG_CONTROL]
   · subst hd hb hr4 hrA
@@ -121,19 +121,19 @@ theorem coh_step_idle (cfg : Config) (x : World) (i : UtmiIn) (h : Coh x)
     · by_cases g4 : r4 = functionControl ctrl <;> by_cases gA : rA = otgControl ctrl <;>
       cases dir <;> cases nxt <;> cases rdy <;> cases txv <;>
       by_cases gn : ctrl.opMode % 4 = OP_MODE_NO_BIT_STUFFING <;>
-      simp_all [Coh, BusyCommon, World.step, Utmi.step, Window.step, Ctl.step, Ctl.comb, Tx.step,
+      simp_all [Coh, BusyCommon, Latched, World.step, Utmi.step, Window.step, Ctl.step, Ctl.comb, Tx.step,
         PhyRegs.step, Env.step, Utmi.ctlOut, Utmi.ctlBusIdle, Utmi.txBusIdle, Tx.busy, Window.busy,
         ADDR_FUNCTION_CONTROL, ADDR_OTG_CONTROL, TRANSMIT_COMMAND]
     · by_cases g4 : r4 = functionControl ctrl <;> by_cases gA : rA = otgControl ctrl <;>
       cases dir <;> cases nxt <;> cases rdy <;> cases txv <;>
       by_cases gn : ctrl.opMode % 4 = OP_MODE_NO_BIT_STUFFING <;>
-      simp_all [Coh, BusyCommon, World.step, Utmi.step, Window.step, Ctl.step, Ctl.comb, Tx.step,
+      simp_all [Coh, BusyCommon, Latched, World.step, Utmi.step, Window.step, Ctl.step, Ctl.comb, Tx.step,
         PhyRegs.step, Env.step, Utmi.ctlOut, Utmi.ctlBusIdle, Utmi.txBusIdle, Tx.busy, Window.busy,
         ADDR_FUNCTION_CONTROL, ADDR_OTG_CONTROL, TRANSMIT_COMMAND]
     · by_cases g4 : r4 = functionControl ctrl <;> by_cases gA : rA = otgControl ctrl <;>
       cases dir <;> cases nxt <;> cases rdy <;> cases txv <;>
       by_cases gn : ctrl.opMode % 4 = OP_MODE_NO_BIT_STUFFING <;>
-      simp_all [Coh, BusyCommon, World.step, Utmi.step, Window.step, Ctl.step, Ctl.comb, Tx.step,
+      simp_all [Coh, BusyCommon, Latched, World.step, Utmi.step, Window.step, Ctl.step, Ctl.comb, Tx.step,
         PhyRegs.step, Env.step, Utmi.ctlOut, Utmi.ctlBusIdle, Utmi.txBusIdle, Tx.busy, Window.busy,
         ADDR_FUNCTION_CONTROL, ADDR_OTG_CONTROL, TRANSMIT_COMMAND]
 
